@@ -260,6 +260,8 @@ pub fn generate(seed: u64, n: usize, _thorough: bool, _corpus: Option<&str>) -> 
     // one operator printed without parentheses, see `chain_programs`
     out.extend(chain_programs(seed, if n >= 2000 { n / 12 } else { 48 }));
     out.extend(nested_logic_programs(seed, if n >= 2000 { n / 24 } else { 32 }));
+    out.extend(const_arith_programs(seed, if n >= 2000 { n / 16 } else { 40 }));
+    out.extend(constant_row_programs(seed, if n >= 2000 { n / 24 } else { 32 }));
     // fixed programs for the arms the random stream rarely reaches: `Linearization(..)` errors, the variable-free branch of
     // `auto_solver` (solved / infeasible), an unbounded model
     for text in [
@@ -459,6 +461,112 @@ pub fn nested_logic_programs(seed: u64, count: usize) -> Vec<Case> {
         let text = Printer { r: &mut pr, sp: Spelling { aliases: r.chance(1, 2), implicit_mul: false, redundant_parens: false, named_consts: false, minimal_parens: r.chance(1, 2) }, consts: vec![] }.program(&m);
         let mut c = one(&m, &text, "nested-logic");
         c.tags.push(format!("nested-logic-{}", i % 8));
+        out.push(c);
+    }
+    out
+}
+
+// ======================================================================================================
+// WHERE-CONSTANTS DEFINED BY ARITHMETIC on literals of mixed kinds (integer / integer with a non-integer quotient, integer -
+// float, float / integer, integer / float, products, a constant built from another constant).  The TEXT carries the arithmetic,
+// the abstract model handed to the reference carries the EXACT value (all operands dyadic, so f64 arithmetic is exact).  The
+// constant decides the optimum (`min x s.t. x >= k` over integers, `max y s.t. y <= k` over a bounded Real).  Own generator.
+
+pub fn const_arith_programs(seed: u64, count: usize) -> Vec<Case> {
+    use rooc::{BinOp, Comparison, OptimizationType};
+    let mut r = Rng::new(seed ^ 0xc0257_a217_u64).fork();
+    let bx = |e: SrcExp| Box::new(e);
+    let mut out = vec![];
+    for i in 0..count {
+        // (text of the definition(s), exact value of `k`)
+        let ints = [1i64, 2, 3, 5, 6, 7, 9, 10, 11, 13];
+        let evens = [2i64, 4, 8];
+        let floats = [0.25f64, 0.5, 1.5, 2.5, 0.75, 1.25];
+        let fl = |v: f64| format!("{}", v);
+        let (defs, k): (String, f64) = match i % 10 {
+            0 | 1 => { let a = *r.pick(&ints); let b = *r.pick(&evens); (format!("    let k = {} / {}\n", a, b), a as f64 / b as f64) }
+            2 => { let a = *r.pick(&ints); let f = *r.pick(&floats); (format!("    let k = {} - {}\n", a, fl(f)), a as f64 - f) }
+            3 => { let a = *r.pick(&ints); let f = *r.pick(&[0.5f64, 1.5, 2.5, 0.25]); (format!("    let k = {} / {}\n", a, fl(f)), a as f64 / f) }
+            4 => { let f = *r.pick(&[7.5f64, 4.5, 10.5, 2.5]); let b = *r.pick(&evens); (format!("    let k = {} / {}\n", fl(f), b), f / b as f64) }
+            5 => { let a = *r.pick(&ints); let f = *r.pick(&floats); (format!("    let k = {} * {}\n", a, fl(f)), a as f64 * f) }
+            6 => { let a = *r.pick(&ints); let b = *r.pick(&evens); let c = *r.pick(&ints); (format!("    let h = {} / {}\n    let k = h + {}\n", a, b, c), a as f64 / b as f64 + c as f64) }
+            7 => { let a = *r.pick(&ints); let b = *r.pick(&evens); let c = *r.pick(&ints); (format!("    let k = ({} + {}) / {}\n", a, c, b), (a + c) as f64 / b as f64) }
+            8 => { let f = *r.pick(&floats); let a = *r.pick(&ints); (format!("    let k = {} - {}\n", fl(f), a), f - a as f64) }
+            _ => { let a = *r.pick(&ints); let b = *r.pick(&evens); let f = *r.pick(&floats); (format!("    let k = {} / {} - {}\n", a, b, fl(f)), a as f64 / b as f64 - f) }
+        };
+        // how the constant is used
+        let use_real = r.chance(1, 2);
+        let (ds, body, cons, opt, obj): (Vec<VarDecl>, String, Vec<SrcConstraint>, OptimizationType, SrcExp) = if use_real {
+            // max / min a bounded Real against k
+            let lo = -8.0; let hi = 30.0;
+            let ds = vec![VarDecl { name: "y".into(), ty: VariableType::Real(lo, hi) }];
+            let up = r.chance(1, 2);
+            let c = SrcConstraint::new(SrcExp::Variable("y".into()), if up { Comparison::LessOrEqual } else { Comparison::GreaterOrEqual }, SrcExp::Number(k), "c".into());
+            (ds, format!("{} y\ns.t.\n    c: y {} k\n", if up { "max" } else { "min" }, if up { "<=" } else { ">=" }), vec![c], if up { OptimizationType::Max } else { OptimizationType::Min }, SrcExp::Variable("y".into()))
+        } else {
+            // an integer variable: `min x s.t. x >= k` (ceil) or `max x s.t. 2 * x <= 2 * k`-style through a coefficient
+            let ds = vec![VarDecl { name: "x".into(), ty: VariableType::IntegerRange(-10, 40) }];
+            match r.below(3) {
+                0 => (ds, "min x\ns.t.\n    c: x >= k\n".into(), vec![SrcConstraint::new(SrcExp::Variable("x".into()), Comparison::GreaterOrEqual, SrcExp::Number(k), "c".into())], OptimizationType::Min, SrcExp::Variable("x".into())),
+                1 => (ds, "max x\ns.t.\n    c: 4 * x <= 4 * k\n".into(), vec![SrcConstraint::new(SrcExp::BinOp(BinOp::Mul, bx(SrcExp::Number(4.0)), bx(SrcExp::Variable("x".into()))), Comparison::LessOrEqual, SrcExp::BinOp(BinOp::Mul, bx(SrcExp::Number(4.0)), bx(SrcExp::Number(k))), "c".into())], OptimizationType::Max, SrcExp::Variable("x".into())),
+                _ => (ds, "min x + k\ns.t.\n    c: x + k >= 1\n".into(), vec![SrcConstraint::new(SrcExp::BinOp(BinOp::Add, bx(SrcExp::Variable("x".into())), bx(SrcExp::Number(k))), Comparison::GreaterOrEqual, SrcExp::Number(1.0), "c".into())], OptimizationType::Min, SrcExp::BinOp(BinOp::Add, bx(SrcExp::Variable("x".into())), bx(SrcExp::Number(k)))),
+            }
+        };
+        let decl = ds.iter().map(|d| match d.ty { VariableType::Real(lo, hi) => format!("    {} as Real(0 - {}, {})", d.name, -lo, hi), VariableType::IntegerRange(lo, hi) => format!("    {} as IntegerRange(0 - {}, {})", d.name, -lo, hi), _ => String::new() }).collect::<Vec<_>>().join("\n");
+        let text = format!("{}where\n{}define\n{}", body, defs, decl);
+        let m = gen_model::build(opt, obj, cons, &ds);
+        let mut c = one(&m, &text, "const-arith");
+        c.tags.push(format!("const-arith-{}", i % 10));
+        out.push(c);
+    }
+    out
+}
+
+// ======================================================================================================
+// CONSTANT ROWS ONLY: programs in which NO decision variable is used (literals and where-constants only) with 2-4 constant
+// rows and every truth pattern - in particular an EARLIER row false and the LAST row true.  (`auto_solver` decides such a
+// model on the spot; every row has to hold.)  Left-hand sides avoid the literals 0 / 1 (folded as logic values).  Own generator.
+
+pub fn constant_row_programs(seed: u64, count: usize) -> Vec<Case> {
+    use rooc::{Comparison, OptimizationType};
+    let mut r = Rng::new(seed ^ 0x0c0257_20a5_u64).fork();
+    let mut out = vec![];
+    for i in 0..count {
+        let k = r.range(2, 9) as f64;
+        let nrows = 2 + r.below(3);
+        // the truth pattern of the rows: rotate through the interesting ones
+        let pattern: Vec<bool> = match i % 6 {
+            0 => { let mut p = vec![true; nrows]; p[0] = false; p }                       // first false, last true
+            1 => { let mut p = vec![true; nrows]; p[nrows - 2] = false; p }               // the one before the last false
+            2 => vec![true; nrows],
+            3 => { let mut p = vec![true; nrows]; p[nrows - 1] = false; p }               // last false
+            4 => { let mut p = vec![false; nrows]; p[nrows - 1] = true; p }               // only the last true
+            _ => (0..nrows).map(|_| r.chance(1, 2)).collect(),
+        };
+        let mut cons = vec![]; let mut lines = String::new();
+        for (j, holds) in pattern.iter().enumerate() {
+            // `k cmp c` or `c cmp k` with the constant spelled `k` (where-constant) or as a literal
+            let cmp = *r.pick(&[Comparison::LessOrEqual, Comparison::GreaterOrEqual, Comparison::Equal]);
+            let other = match (cmp, *holds) {
+                (Comparison::LessOrEqual, true) => k + r.range(0, 3) as f64, (Comparison::LessOrEqual, false) => k - r.range(1, 3) as f64,
+                (Comparison::GreaterOrEqual, true) => k - r.range(0, 3) as f64, (Comparison::GreaterOrEqual, false) => k + r.range(1, 3) as f64,
+                (_, true) => k, (_, false) => k + r.range(1, 3) as f64,
+            };
+            let cs = match cmp { Comparison::LessOrEqual => "<=", Comparison::GreaterOrEqual => ">=", _ => "=" };
+            let lhs_text = if r.chance(2, 3) { "k".to_string() } else { format!("{}", k as i64) };
+            let rhs_text = if other < 0.0 { format!("(0 - {})", -other as i64) } else { format!("{}", other as i64) };
+            lines.push_str(&format!("    r{}: {} {} {}\n", j, lhs_text, cs, rhs_text));
+            cons.push(SrcConstraint::new(SrcExp::Number(k), cmp, SrcExp::Number(other), format!("r{}", j)));
+        }
+        let (opt, head) = match r.below(3) { 0 => (OptimizationType::Min, "min k + 2"), 1 => (OptimizationType::Max, "max k + 2"), _ => (OptimizationType::Min, "min k") };
+        let obj = if head.ends_with("+ 2") { SrcExp::BinOp(rooc::BinOp::Add, Box::new(SrcExp::Number(k)), Box::new(SrcExp::Number(2.0))) } else { SrcExp::Number(k) };
+        // a declared but unused variable now and then (still no USED decision variable)
+        let unused = r.chance(1, 3);
+        let ds: Vec<VarDecl> = if unused { vec![VarDecl { name: "u".into(), ty: VariableType::Boolean }] } else { vec![] };
+        let text = format!("{}\ns.t.\n{}where\n    let k = {}\n{}", head, lines, k as i64, if unused { "define\n    u as Boolean" } else { "" });
+        let m = gen_model::build(opt, obj, cons, &ds);
+        let mut c = one(&m, text.trim_end(), "constant-rows");
+        c.tags.push(format!("constant-rows-{}", i % 6));
         out.push(c);
     }
     out
